@@ -5,10 +5,13 @@
 //! Fields are separated by one space; every string field is the lowercase hex of its bytes, `-`
 //! for the empty string.
 //!   m <globhex> <pathhex>            -> 1 | 0 | NONUTF8 | PANIC
-//!   p <g|f> <dirhex> <linehex>       -> glob=<hex> white=<0|1> rel=<hex|ANY> dironly=<0|1> | PANIC
-//!   c <dirhex> <contenthex>          -> <w|i>:<globhex>,... | - | PANIC
-//!   k <fixed01> <rules> <pathhex>    -> NoMatch | Ignore | Whitelist | PANIC     (fixed is ignored)
-//!        rules = <dirhex>:<linehex>,... | -
+//!   p <g|f> <dirhex> <linehex> [f36] -> glob=<hex> white=<0|1> rel=<hex|ANY> dironly=<0|1> | PANIC
+//!   c <dirhex> <contenthex> [f36]    -> <w|i>:<globhex>,... | - | PANIC
+//!   k <flags> <rules> <pathhex>      -> NoMatch | Ignore | Whitelist | PANIC
+//!        rules = <dirhex>:<linehex>,... | -          IgnoreRules::empty + add_patterns, then check
+//!   K <flags> <globalshex> <rules> <pathhex>         IgnoreRules::from_global_patterns + add_patterns
+//! The flag fields (which repairs the model should assume) are for the model only and ignored here:
+//! the real code behaves as it behaves.
 use std::io::{self, BufRead, Write};
 use std::panic::{catch_unwind, AssertUnwindSafe};
 use std::path::{Path, PathBuf};
@@ -65,7 +68,7 @@ fn answer(line: &str) -> Option<String> {
             let (g, p) = (unhex(f[1])?, unhex(f[2])?);
             if glob_match(&g, &p) { "1" } else { "0" }.to_string()
         }
-        ("p", 4) => {
+        ("p", 4) | ("p", 5) => {
             let (dir, l) = (unhex(f[2])?, unhex(f[3])?);
             let src = match f[1] {
                 "g" => Source::Global,
@@ -74,7 +77,7 @@ fn answer(line: &str) -> Option<String> {
             };
             show_pattern(&Pattern::new(src, &l))
         }
-        ("c", 3) => {
+        ("c", 3) | ("c", 4) => {
             let (dir, content) = (unhex(f[1])?, unhex(f[2])?);
             let root = Path::new("/r");
             let src = root.join(&dir).join(".xvcignore");
@@ -94,16 +97,24 @@ fn answer(line: &str) -> Option<String> {
                     .join(",")
             }
         }
-        ("k", 4) => {
+        ("k", 4) | ("K", 5) => {
+            let (globals, rules, path) = if f[0] == "K" {
+                (Some(unhex(f[2])?), f[3], f[4])
+            } else {
+                (None, f[2], f[3])
+            };
             let mut items = Vec::new();
-            if f[2] != "-" {
-                for it in f[2].split(',') {
+            if rules != "-" {
+                for it in rules.split(',') {
                     let (d, l) = it.split_once(':').expect("rule item");
                     items.push((unhex(d)?, unhex(l)?));
                 }
             }
-            let path = unhex(f[3])?;
-            let r = IgnoreRules::empty(Path::new("/r"), None);
+            let path = unhex(path)?;
+            let r = match &globals {
+                Some(g) => IgnoreRules::from_global_patterns(Path::new("/r"), None, g),
+                None => IgnoreRules::empty(Path::new("/r"), None),
+            };
             let ps: Vec<Pattern> = items
                 .iter()
                 .map(|(d, l)| Pattern::new(file_source(d), l))
